@@ -592,6 +592,54 @@ def directed_cases(ctx):
             bad = [i for i, (x, y) in enumerate(zip(state['got'], live)) if x != y]
             ctx.violation('a saved recording answers a call with the value recorded for a different call (calls with different resolved aliases / captured '
                           'arguments share a key)', dict(w, call=repr(calls[bad[0]])[:120], recorded=repr(live[bad[0]])[:120], replayed=repr(state['got'][bad[0]])[:120]))
+    # ---- argument values that differ only in something a key builder might think it can ignore
+    from vlib.values import Obj
+    near_pairs = [(Obj(_code='USD'), Obj(_code='GBP')), (Obj(base='EUR', _quote='USD'), Obj(base='EUR', _quote='GBP')), (Obj(__v=1), Obj(__v=2)),
+                  (1696320000.123456, 1696320000.123457), (0.1 + 0.2, 0.3), (1.0000000000000002, 1.0), (1e16, 1e16 + 2), (5e-324, 0.0), (-0.0, 0.0),
+                  (12345678.12345678, 12345678.123456782), ([0.1 + 0.2], [0.3]), ({'min_score': 0.1 + 0.2}, {'min_score': 0.3}),
+                  ({'a': Obj(_id=1)}, {'a': Obj(_id=2)}), ((1, [Obj(_k='x')]), (1, [Obj(_k='y')])), ('x' * 2000 + 'a', 'x' * 2000 + 'b'),
+                  (list(range(300)), list(range(299)) + [300]), (10 ** 18, 10 ** 18 + 1), (float('inf'), 1.7976931348623157e308)]
+    for ni, (a, b) in enumerate(near_pairs):
+        for where in ('positional', 'keyword'):
+            cas = InMemoryTapeCassette()
+            rec = TapeRecorder(cas)
+            rec.enable_recording()
+            state = {}
+            backend = {'calls': 0}
+
+            class Rates(object):
+                @rec.intercept_input('rates.current')
+                def current(self, *args, **kwargs):
+                    backend['calls'] += 1
+                    return ['rate for call number', backend['calls']]
+
+                @rec.operation()
+                def run(self):
+                    out = []
+                    for v in (a, b):
+                        try:
+                            out.append(self.current(v) if where == 'positional' else self.current(pair=v))
+                        except RecordingKeyError:
+                            out.append('missing')
+                    state['got'] = out
+            Rates().run()
+            live = state['got']
+            w = {'directed': 'near_values', 'pair': ni, 'where': where}
+            ctx.case(w)
+            ctx.count('near_value_pairs')
+            try:
+                rid = cas.get_last_recording_id()
+                cas.get_recording(rid)
+            except Exception:
+                ctx.count('directed_cases_not_saved')
+                continue
+            backend['calls'] = 0
+            rec.play(rid, lambda recording: Rates().run())
+            ctx.count('replayed_calls_judged', 2)
+            if backend['calls'] or state['got'] != live:
+                ctx.violation('two calls whose captured arguments differ (%s) share a key: replay answers one with the value recorded for the other' % (
+                    'only in private attributes' if hasattr(a, '__dict__') or ni in (12, 13) else 'only slightly'),
+                    dict(w, a=repr(a)[:80], b=repr(b)[:80], recorded=repr(live)[:120], replayed=repr(state['got'])[:120]))
     # ---- receivers that are not called self
     for variant in range(4):
         cas = InMemoryTapeCassette()
